@@ -29,6 +29,8 @@ struct Case {
     split: bool,
     /// the character-set byte of a 4.1 handshake response (utf8 0x21, latin1 0x08, utf8mb4 0x2d, ...)
     collation: u8,
+    /// every read returns at most this many bytes (0: whole reads)
+    read_size: usize,
 }
 
 fn run_case(c: &Case, st: &mut Stats) -> Result<(), Violation> {
@@ -46,8 +48,9 @@ fn run_case(c: &Case, st: &mut Stats) -> Result<(), Violation> {
         _ => {}
     }
     let mut conv = Conv::new(cmds);
-    conv.handshake = frame(c.seq, &payload).0;
-    conv.hs_seq = c.seq;
+    let (framed, last_id) = frame(c.seq, &payload);
+    conv.handshake = framed;
+    conv.hs_seq = last_id; // a response that needs a continuation packet ends one id later
     let s = conv.stream();
     let mut bytes = s.bytes.clone();
     if c.partial_tail || c.tail == 3 {
@@ -58,6 +61,9 @@ fn run_case(c: &Case, st: &mut Stats) -> Result<(), Violation> {
     let stream = Arc::new(bytes);
     let mut sim = sim_for(&stream, if c.split { vec![s.ends[0]] } else { vec![] });
     sim.log_ops = false;
+    if c.read_size != 0 {
+        sim.uniform_read = c.read_size;
+    }
     let mut cfg = ConnCfg::new(std_behave());
     if c.reject {
         cfg.auth_reject = Some(31337);
@@ -210,6 +216,7 @@ impl CapsSweep {
             tail: 0,
             split: false,
             collation: 0x21,
+            read_size: 0,
         })
     }
 }
@@ -279,6 +286,7 @@ impl Users {
             tail: 0,
             split: false,
             collation: COLLATIONS[d[6] as usize],
+            read_size: 0,
         }
     }
 }
@@ -329,6 +337,7 @@ impl Family for SeqIds {
                 tail: 0,
                 split: false,
                 collation: 0x21,
+            read_size: 0,
             },
             st,
         )
@@ -360,6 +369,7 @@ impl Tails {
             tail: d[3] as u8,
             split: d[5] == 1,
             collation: 0x21,
+            read_size: 0,
         }
     }
 }
@@ -382,16 +392,80 @@ impl Family for Tails {
     }
 }
 
-pub fn build(_quick: bool) -> Check {
+/// user names of every length: the name is the one variable-length field the library itself has to
+/// find the end of, inside a packet whose size it does not choose. Every length 0..=2100 and windows
+/// around the powers of two up to 2^20 (thorough: up to the packet limit, so that the handshake
+/// response itself needs a continuation packet), bytes that differ from position to position, both
+/// layouts, accept and reject, whole reads and reads of 7 / 4096 bytes, a query pipelined behind.
+struct UserLengths {
+    lens: Vec<usize>,
+}
+impl UserLengths {
+    fn new(quick: bool) -> Self {
+        let mut lens: Vec<usize> = (0..=2100).collect();
+        for k in [4096usize, 8192, 16384, 32768, 65535, 65536, 100_000, 1 << 20] {
+            for d in -4i64..=4 {
+                lens.push((k as i64 + d) as usize);
+            }
+        }
+        if !quick {
+            // 4.1 layout: 32 bytes before the name, one NUL and a 1-byte trailer behind it
+            for total in [(1usize << 24) - 2, (1 << 24) - 1, 1 << 24, (1 << 24) + 5] {
+                lens.push(total - 34);
+            }
+        }
+        UserLengths { lens }
+    }
+    fn case(&self, idx: u64) -> Case {
+        let d = digits(idx, &[self.lens.len() as u64, 2, 2, 3]);
+        let n = self.lens[d[0] as usize];
+        let is41 = d[1] == 0;
+        Case {
+            lo: if is41 { 0xa285 } else { 0x0005 },
+            hi: if is41 { 0x000a } else { 0 },
+            user: (0..n).map(|i| (i % 251 + 1) as u8).collect(),
+            trailer: vec![0],
+            seq: 1,
+            tls: false,
+            reject: d[2] == 1,
+            pipelined: 1,
+            partial_tail: false,
+            tail: 0,
+            split: false,
+            collation: 0x21,
+            read_size: if n > 200_000 { [0, 65536, 4096][d[3] as usize] } else { [0, 7, 4096][d[3] as usize] },
+        }
+    }
+}
+impl Family for UserLengths {
+    fn name(&self) -> String {
+        "user-name-lengths".into()
+    }
+    fn len(&self) -> u64 {
+        self.lens.len() as u64 * 2 * 2 * 3
+    }
+    fn run(&self, idx: u64, st: &mut Stats) -> Result<(), Violation> {
+        let c = self.case(idx);
+        st.nontrivial += 1;
+        st.bump("user_name_lengths");
+        run_case(&c, st)
+    }
+    fn describe(&self, idx: u64) -> J {
+        let c = self.case(idx);
+        json!({"layout": if c.lo & 0x200 != 0 {"4.1"} else {"3.20"}, "user_name_bytes": c.user.len(), "user": "byte i is i % 251 + 1", "reject": c.reject, "reads_of_at_most": c.read_size})
+    }
+}
+
+pub fn build(quick: bool) -> Check {
     Check {
         id: "C11",
         level: "model_checking",
-        rule: "handshake responses: all 2^16 lower capability words x 4 upper words (the layout follows CLIENT_PROTOCOL_41) x accept/reject, without and with a TLS configuration (plaintext clients); 262 user names (empty, every single non-NUL byte, 255 and 70000 bytes, non-UTF-8) x 6 character-set bytes (utf8, latin1, utf8mb4, binary, ...) x 8 trailers x both layouts x accept/reject x 0..2 pipelined commands (and, when rejecting, a further command cut off inside its packet) x TLS configured or not; every handshake sequence id; 0..2 pipelined queries followed by nothing / COM_QUIT / an EXECUTE of an unknown statement / a command cut off by the end of the stream, in one read or with the handshake response in a read of its own, accept and reject. Oracle: first packet is a protocol-10 greeting with id 0 accepted by refwire and mysql_common, CLIENT_PROTOCOL_41 set, CLIENT_SSL set iff a TLS configuration is offered; after_authentication exactly once with the exact user bytes before any command; reject -> ERR 1045/28000 at id+1, run_on returns the shim's error, no command callback; accept -> OK at id+1 and the pipelined commands are served (their replies delivered even when the connection then ends with an error); CLIENT_SSL without a TLS configuration -> Err and no callback at all.".into(),
+        rule: "handshake responses: all 2^16 lower capability words x 4 upper words (the layout follows CLIENT_PROTOCOL_41) x accept/reject, without and with a TLS configuration (plaintext clients); 262 user names (empty, every single non-NUL byte, 255 and 70000 bytes, non-UTF-8) x 6 character-set bytes (utf8, latin1, utf8mb4, binary, ...) x 8 trailers x both layouts x accept/reject x 0..2 pipelined commands (and, when rejecting, a further command cut off inside its packet) x TLS configured or not; every handshake sequence id; user names of every length 0..2100 and around every power of two up to 2^20 (thorough: up to a handshake response that needs a continuation packet), position-dependent bytes, both layouts, accept/reject, whole reads and reads of 7 / 4096 bytes; 0..2 pipelined queries followed by nothing / COM_QUIT / an EXECUTE of an unknown statement / a command cut off by the end of the stream, in one read or with the handshake response in a read of its own, accept and reject. Oracle: first packet is a protocol-10 greeting with id 0 accepted by refwire and mysql_common, CLIENT_PROTOCOL_41 set, CLIENT_SSL set iff a TLS configuration is offered; after_authentication exactly once with the exact user bytes before any command; reject -> ERR 1045/28000 at id+1, run_on returns the shim's error, no command callback; accept -> OK at id+1 and the pipelined commands are served (their replies delivered even when the connection then ends with an error); CLIENT_SSL without a TLS configuration -> Err and no callback at all.".into(),
         assumptions: vec!["masks with CLIENT_SSL against a TLS-offering shim are C18's scenarios (they need a real TLS client)".into()],
         bounds: json!({"capability_words": 65536, "upper_words": 4, "users": 262, "trailers": 8}),
         exhaustive: true,
         caps_hit: vec![],
-        families: vec![Box::new(CapsSweep { tls: false }), Box::new(CapsSweep { tls: true }), Box::new(Users::new()), Box::new(SeqIds), Box::new(Tails)],
-        required: vec!["pipelined_tails", "accepted_then_connection_error", "ssl_requested_without_tls", "rejected", "accepted", "pipelined_behind_handshake", "layout_320", "non_utf8_users", "rejected_with_truncated_tail"],
+        families: vec![Box::new(CapsSweep { tls: false }), Box::new(CapsSweep { tls: true }), Box::new(Users::new()), Box::new(SeqIds), Box::new(Tails), Box::new(UserLengths::new(quick))],
+        required: vec!["pipelined_tails", "accepted_then_connection_error", "ssl_requested_without_tls", "rejected", "accepted", "pipelined_behind_handshake", "layout_320", "non_utf8_users", "rejected_with_truncated_tail", "user_name_lengths"],
     }
 }
